@@ -149,6 +149,53 @@ func expandArg(st *pstate, a *Sym, verb byte, plain bool, depth int) []outPiece 
 		if x.K == sBin && x.Op.String() == "+" {
 			return append(expandArg(st, x.A, verb, plain, depth+1), expandArg(st, x.B, verb, plain, depth+1)...)
 		}
+		if fn, _ := calleeOfSym(x); isCallTo(fn, "strconv", "Quote") && depth < 4 {
+			// strconv.Quote(s) is what %q prints for the string s
+			if as := symArgs(st, x); len(as) == 1 {
+				return []outPiece{{verb: 'q', arg: as[0]}}
+			}
+		}
+		if fn, _ := calleeOfSym(x); fn != nil && fn.Name() == "String" && fn.Signature.Recv() != nil && namedIs(fn.Signature.Recv().Type(), "strings", "Builder") && depth < 4 {
+			// the text of a strings.Builder: what was written to it before, in order
+			if me := eventOf(st, x); me != nil && len(me.Args) == 1 {
+				recv := me.Args[0].Key()
+				var out []outPiece
+				okB := true
+				for i := range st.events {
+					ev := &st.events[i]
+					if ev == me || (ev.Res != nil && x.Key() == ev.Res.Key()) {
+						break
+					}
+					if ev.Instr == nil || ev.Inlined || ev.Callee == nil || len(ev.Args) == 0 || ev.Args[0].Key() != recv {
+						continue
+					}
+					if ev.Callee.Signature.Recv() == nil || !namedIs(ev.Callee.Signature.Recv().Type(), "strings", "Builder") {
+						okB = false // the builder handed to something else (Fprintf(&b, …), a helper): not modelled
+						continue
+					}
+					switch ev.Callee.Name() {
+					case "WriteString":
+						if len(ev.Args) == 2 {
+							out = append(out, expandArg(st, ev.Args[1], 's', true, depth+1)...)
+						}
+					case "WriteByte", "WriteRune":
+						if len(ev.Args) == 2 && ev.Args[1].K == sConst && ev.Args[1].C != nil {
+							if v, exact := constant.Int64Val(ev.Args[1].C); exact {
+								out = append(out, outPiece{lit: string(rune(v))})
+								continue
+							}
+						}
+						okB = false
+					case "Grow", "Len", "Cap", "String":
+					default:
+						okB = false
+					}
+				}
+				if okB {
+					return out
+				}
+			}
+		}
 		if fn, _ := calleeOfSym(x); isCallTo(fn, "fmt", "Sprintf") && depth < 4 {
 			if ev := eventOf(st, x); ev != nil && len(ev.Args) == 2 {
 				if f, ok := constString(ev.Args[0]); ok {
